@@ -107,6 +107,16 @@ theorem foldl_applyOut_bot_crashed (wt : K → K) (ct : K) (outs : List Out) :
     simp only [List.foldl_cons]
     exact ⟨h1.trans hb, h2.trans (applyOut_crashed wt ct w o)⟩
 
+theorem foldl_applyOut_pc (wt : K → K) (ct : K) (outs : List Out) :
+    ∀ (w : World K), (outs.foldl (World.applyOut wt ct) w).pc = w.pc := by
+  induction outs with
+  | nil => intro w; rfl
+  | cons o rest ih =>
+    intro w
+    simp only [List.foldl_cons]
+    rw [ih]
+    exact (applyOut_pc_obs wt ct w o).1
+
 theorem foldl_applyOut_no_ring (wt : K → K) (ct : K) (outs : List Out) :
     ∀ (w : World K), (∀ o ∈ outs, o.isRing = false) →
       (outs.foldl (World.applyOut wt ct) w).pc = w.pc ∧
